@@ -132,5 +132,27 @@ register(Theorem(
 ))
 
 # C07.roundtrip.check (base58check_decode(base58check(d)) == d) is a corollary of C07.roundtrip.bytes and
-# C07.base58check_decode.alphabet_ok; composing them mechanically left the solvers undecided (quantified alphabet
-# facts + sequence reasoning), so it is not claimed as proved - see DESIGN.md section 10.
+# C07.base58check_decode.alphabet_ok.  Composing them mechanically (uses=[C07.roundtrip.bytes at d + checksum(d)]) left
+# both solvers undecided, so it is NOT claimed; contracts/pending_c07.py keeps the theorem text for a later round.
+
+register(Theorem(
+    "C07.roundtrip.check", P, params={"d": "bytes"},
+    lets={"p": "d + spec.base58.checksum(d)",
+          "e": "bits.base58.base58encode(d + spec.base58.checksum(d))",
+          "p1": "(d + spec.base58.checksum(d)).lstrip(b'\\x00')",
+          "z": "len(d + spec.base58.checksum(d)) - len((d + spec.base58.checksum(d)).lstrip(b'\\x00'))",
+          "out": "bits.base58.base58decode(bits.base58.base58encode(d + spec.base58.checksum(d)))"},
+    body="bits.base58.base58check_decode(bits.base58.base58check(d))",
+    cases=[Case("ok", ensures={"inverse": "result == d"})],
+    options={"no_concat_law": True, "steps": [
+        ("s1_strip", "e.lstrip(b'1') == e[z:]"),
+        ("s2_count", "len(e) - len(e.lstrip(b'1')) == z"),
+        ("s3_value", "int.from_bytes(out[z:], 'big') == int.from_bytes(p1, 'big')"),
+        ("s4_length", "len(out[z:]) == len(p1)"),
+        ("s5_tail", "out[z:] == p1"),
+        ("s6_decoded", "out == p")]},
+    modular=MOD, fuc=["bits.base58.base58check", "bits.base58.base58check_decode"],
+    note="the chain of steps of C07.roundtrip.bytes at p = d + checksum(d), proved before the body is executed; then the "
+         "checksum comparison and the slice are structural",
+    witnesses=[{"d": b""}, {"d": b"\x00"}, {"d": b"\x00\x00\xff"}, {"d": b"hello world"}],
+))
